@@ -72,8 +72,11 @@ fn observe(api: &str, entries: &[(String, Value)]) -> Value {
             Err(_) => json!({"ok": false}),
             Ok(r) => {
                 let lookup_ok = check(&r.signed.keys);
-                let again: Signed<Root> = serde_json::from_slice(&serde_json::to_vec(&r).unwrap()).expect("re-parse of re-serialised root");
-                let stable = again.signed.keys.len() == r.signed.keys.len() && r.signed.keys.iter().all(|(id, k)| again.signed.keys.get(id).map(|k2| k2.key_id().ok() == k.key_id().ok()).unwrap_or(false));
+                // (a failure to re-parse what was just serialised is an observation, not a reason to stop)
+                let stable = match serde_json::from_slice::<Signed<Root>>(&serde_json::to_vec(&r).unwrap()) {
+                    Ok(again) => again.signed.keys.len() == r.signed.keys.len() && r.signed.keys.iter().all(|(id, k)| again.signed.keys.get(id).map(|k2| k2.key_id().ok() == k.key_id().ok()).unwrap_or(false)),
+                    Err(_) => false,
+                };
                 json!({"ok": true, "lookup_ok": lookup_ok, "stable": stable, "size": r.signed.keys.len()})
             }
         }
@@ -83,9 +86,13 @@ fn observe(api: &str, entries: &[(String, Value)]) -> Value {
             Ok(t) => {
                 let d = t.delegations.as_ref().unwrap();
                 let lookup_ok = check(&d.keys);
-                let again: Targets = serde_json::from_slice(&serde_json::to_vec(&t).unwrap()).expect("re-parse of re-serialised targets");
-                let d2 = again.delegations.as_ref().unwrap();
-                let stable = d2.keys.len() == d.keys.len() && d.keys.iter().all(|(id, k)| d2.keys.get(id).map(|k2| k2.key_id().ok() == k.key_id().ok()).unwrap_or(false));
+                let stable = match serde_json::from_slice::<Targets>(&serde_json::to_vec(&t).unwrap()) {
+                    Ok(again) => match again.delegations.as_ref() {
+                        Some(d2) => d2.keys.len() == d.keys.len() && d.keys.iter().all(|(id, k)| d2.keys.get(id).map(|k2| k2.key_id().ok() == k.key_id().ok()).unwrap_or(false)),
+                        None => false,
+                    },
+                    Err(_) => false,
+                };
                 json!({"ok": true, "lookup_ok": lookup_ok, "stable": stable, "size": d.keys.len()})
             }
         }
